@@ -114,13 +114,14 @@ class UploadPipeline(Scenario):
         for _ in range(rng.choice([0, 1, 1, 2, 2, 3, 5])):
             if rng.random() < 0.5:
                 v = gen_text(rng)
-                while ("--" + boundary) in v:
-                    v = v.replace("--" + boundary, "-")
                 cs = rng.choice([None, None, None, "utf-8", "iso-8859-1", "us-ascii", "utf-16"])
                 if cs == "iso-8859-1":
                     v = "".join(c for c in v if ord(c) < 256)
                 elif cs == "us-ascii":
                     v = "".join(c for c in v if ord(c) < 128)
+                # (after the charset filter: dropping characters can join "--" and the boundary)
+                while ("--" + boundary) in v:
+                    v = v.replace("--" + boundary, "-")
                 parts.append({"kind": "field", "name": gen_name(rng, exotic), "value": v, "charset": cs})
             else:
                 data = gen_file_bytes(rng, bb)
